@@ -42,7 +42,8 @@ def inputs_of(spec: Dict[str, Any]) -> Dict[str, List[str]]:
     return out
 
 
-def judge_trace(spec: Dict[str, Any], events: List[tuple], plan: Dict[str, Any], begin_order: List[int], status: str) -> Optional[str]:
+def judge_trace(spec: Dict[str, Any], events: List[tuple], plan: Dict[str, Any], begin_order: List[int], status: str,
+                calls: Optional[List[List[str]]] = None) -> Optional[str]:
     """The property on one observed trace.  Returns a description of the failure or None."""
     ins = inputs_of(spec)
     fg_sids = [s["sid"] for s in plan["steps"] if s["kind"] == "FG"]
@@ -51,6 +52,13 @@ def judge_trace(spec: Dict[str, Any], events: List[tuple], plan: Dict[str, Any],
             n = begin_order.count(sid)
             if n != 1:
                 return f"FG step {sid} executed {n} times"
+        seen: Dict[str, int] = {}
+        for c in calls or []:
+            for fu in c:
+                seen[fu] = seen.get(fu, 0) + 1
+        twice = sorted(k for k, v in seen.items() if v > 1)
+        if twice:
+            return f"feature objects handed to calculate_feature more than once: {[t.split(':')[0] for t in twice]}"
     for kind, group, names, cols in events:
         if kind != "enter":
             continue
@@ -82,7 +90,9 @@ def gen_specs(rng: random.Random, n: int) -> Tuple[List[Dict[str, Any]], Dict[st
     specs, stats = [], {"generated": 0, "prepare_rejected": 0}
     while len(specs) < n and stats["generated"] < 20 * n:
         stats["generated"] += 1
-        spec = daggen.gen_two_roots_inner(rng) if rng.random() < 0.2 else daggen.gen_single_root(rng)
+        r0 = rng.random()
+        spec = (daggen.gen_two_roots_inner(rng) if r0 < 0.15 else daggen.gen_typed_mix(rng) if r0 < 0.35
+                else daggen.gen_single_root(rng))
         uni = Universe(spec, GateListener())
         try:
             uni.prepare()
@@ -104,7 +114,7 @@ def one_spec(spec: Dict[str, Any], rng: random.Random, n_sched: int) -> Dict[str
     rec: Dict[str, Any] = {"spec": spec, "plan": {k: v for k, v in plan.items() if k != "_ren"}, "adj": adj,
                            "sync": {"begin": o["begin_order"], "scans": o["scans"], "status": o["status"], "foot": o["foot"]},
                            "gated": []}
-    rec["sync"]["judge"] = judge_trace(spec, gl.events, plan, o["begin_order"], o["status"])
+    rec["sync"]["judge"] = judge_trace(spec, gl.events, plan, o["begin_order"], o["status"], gl.calls)
     rec["sync"]["raised"] = o["raised_steps"]
     rec["sync"]["exc"] = str(o.get("exc"))[-300:] if o["status"] == "raised" else None
     base = canon_result(o["result"]) if o["status"] == "ok" else None
@@ -114,7 +124,7 @@ def one_spec(spec: Dict[str, Any], rng: random.Random, n_sched: int) -> Dict[str
         sess2 = uni2.prepare()
         plan2 = export_plan(sess2, uni2)
         g = run_gated(uni2, sess2, plan2, random.Random(rng.random()))
-        jr = judge_trace(spec, gl2.events, plan2, g["begin_order"], g["status"])
+        jr = judge_trace(spec, gl2.events, plan2, g["begin_order"], g["status"], gl2.calls)
         same = None
         if g["status"] == "ok" and base is not None:
             same = canon_result(g["result"]) == base
@@ -295,11 +305,11 @@ def replay(path: str) -> int:
             return expected[0]
         g = run_gated(uni, sess, plan, random.Random(0), choose=choose)
         print("status:", g["status"], "problem:", g["problem"], "rounds:", g["rounds"])
-        print("judge:", judge_trace(spec, gl.events, plan, g["begin_order"], g["status"]))
+        print("judge:", judge_trace(spec, gl.events, plan, g["begin_order"], g["status"], gl.calls))
         if g["status"] == "raised":
             print(str(g.get("exc"))[-400:])
     else:
         o = run_observed(sess)
         print("status:", o["status"], "begin:", o["begin_order"], "scans:", o["scans"])
-        print("judge:", judge_trace(spec, gl.events, plan, o["begin_order"], o["status"]))
+        print("judge:", judge_trace(spec, gl.events, plan, o["begin_order"], o["status"], gl.calls))
     return 0
